@@ -114,3 +114,10 @@ pub fn vretain_still_used(blobs: &mut Vec<IndexBlob>, used: &mut VUsedSet)
 pub fn vsort_blobs_c02(blobs: &mut Vec<IndexBlob>)
     ensures final(blobs)@.to_multiset() == old(blobs)@.to_multiset(), final(blobs)@.len() == old(blobs)@.len(),
 { unimplemented!() }
+
+// PackId equality (ids are opaque here)
+pub uninterp spec fn same_pack(a: PackId, b: PackId) -> bool;
+#[verifier::external_body]
+pub fn vpackid_eq(a: &PackId, b: &PackId) -> (r: bool) ensures r == same_pack(*a, *b), { unimplemented!() }
+#[verifier::external_body]
+pub proof fn axiom_same_pack_refl(a: PackId) ensures same_pack(a, a), {}
